@@ -95,6 +95,14 @@ class SFTPFile(BufferedFile):
         if self.pipelined:
             self.sftp._finish_responses(self)
         BufferedFile.close(self)
+        write_error = None
+        if not async_:
+            # pipelined writes whose status nobody has read yet: a write the
+            # server rejected must not go unnoticed
+            try:
+                self._collect_write_responses()
+            except Exception as e:
+                write_error = e
         try:
             if async_:
                 # GC'd file handle could be called from an arbitrary thread
@@ -108,6 +116,19 @@ class SFTPFile(BufferedFile):
         except (IOError, socket.error):
             # may have outlived the Transport connection
             pass
+        if write_error is not None:
+            raise write_error
+
+    def _collect_write_responses(self):
+        while len(self._reqs):
+            req = self._reqs.popleft()
+            if req not in self.sftp._expecting:
+                # already consumed while waiting for another response
+                continue
+            t, msg = self.sftp._read_response(req)
+            if t != CMD_STATUS:
+                raise SFTPError("Expected status")
+            # convert_status already called
 
     def _data_in_prefetch_requests(self, offset, size):
         k = [
